@@ -492,6 +492,19 @@ func resolveRenames(pkgs map[string]*packages.Package) {
 					ss = sc
 				}
 			}
+			if best == "" && strings.Contains(m, ".") {
+				// a method that never used its receiver turned into a plain function (same parameters and results,
+				// near-identical body): the plain function is the listed method
+				for _, n := range names {
+					c := newcomers[n]
+					if strings.Contains(n, ".") || sigKey(c.info, c.fd) != r.Sig {
+						continue
+					}
+					if sc := similarity(r.FP, fingerprint(c.info, c.fd)); sc >= 0.85 && sc > bs {
+						best, bs = n, sc
+					}
+				}
+			}
 			if best == "" || bs < 0.6 {
 				continue
 			}
